@@ -172,9 +172,12 @@ class Ctx:
             pc = [z3.substitute(f, *rw) for f in pc] + list(getattr(self, "rewrite_facts", []))
         r = solve.prove(pc, goal)
         model = None
+        status = r.status
         if r.status == "sat":
             model = r.model
-        self.obls.append(Obl(name, text, r.status, r.backend, r.time_s, model=model, detail=r.detail,
+            if getattr(r, "inexact", False):
+                status = "candidate"
+        self.obls.append(Obl(name, text, status, r.backend, r.time_s, model=model, detail=r.detail,
                              path_id=self.path_id, inputs=dict(self.inputs), label=label))
         # proven goals are NOT added to the path condition (they are consequences of it and only
         # slow down later satisfiability checks); use spec.lemma() to prove-and-use a fact.
